@@ -590,6 +590,11 @@ class Loader:
                     restored = False
                 else:
                     restored = server.put(app)
+                    if restored and app.placement_expiry != expires:
+                        # Lease was re-evaluated, keep the stored placement
+                        # in sync with the model.
+                        data['expires'] = app.placement_expiry
+                        self.backend.put(appnode, data)
 
             if not restored:
                 _LOGGER.info('Failed to restore placement %s => %s',
